@@ -32,7 +32,8 @@ def main():
         assert sh(f"git -C /repo worktree add -q --detach {wt} HEAD").returncode == 0
         try:
             env = dict(os.environ, PYTHONPATH=wt)
-            r0 = sh(f"cd {wt} && /venv/bin/python {d}/demo.py", env=env)
+            sh(f"mkdir -p {wt}/seed1 && cp {d}/demo.py {wt}/seed1/demo.py")  # same layout as when it was written
+            r0 = sh(f"cd {wt} && /venv/bin/python seed1/demo.py", env=env)
             ap = sh(f"git -C {wt} apply {patch}")
             if ap.returncode != 0:
                 ap = sh(f"git -C {wt} apply -3 {patch}")
@@ -42,7 +43,7 @@ def main():
                 meta["confirm_note"] = "patch does not apply to current /repo HEAD"
             else:
                 t = sh(f"cd {wt} && /venv/bin/python -m pytest -q -p no:cacheprovider --timeout=900 2>&1 | tail -1", env=env)
-                r1 = sh(f"cd {wt} && /venv/bin/python {d}/demo.py", env=env)
+                r1 = sh(f"cd {wt} && /venv/bin/python seed1/demo.py", env=env)
                 meta["confirm"] = {"demo_exit_clean": r0.returncode, "demo_exit_with_change": r1.returncode,
                                    "tests_with_change": t.stdout.strip()}
                 meta["confirmed"] = r0.returncode == 0 and r1.returncode != 0 and "failed" not in t.stdout and \
